@@ -147,7 +147,7 @@ def rsa_jwk(name="rsa_2048_a"):
     return rjwk.export(rsa_obj(name), private=True)
 
 
-RSA_NAMES = ["rsa_1024_a", "rsa_1025_a", "rsa_1536_a", "rsa_2041_a", "rsa_2047_a", "rsa_2048_a", "rsa_2048_b", "rsa_2048_e3", "rsa_3072_a", "rsa_4096_a"]
+RSA_NAMES = ["rsa_1024_a", "rsa_1024_p_less_than_q", "rsa_1025_a", "rsa_1536_a", "rsa_2041_a", "rsa_2047_a", "rsa_2048_a", "rsa_2048_b", "rsa_2048_e3", "rsa_3072_a", "rsa_4096_a"]
 EC_CURVES = ["P-256", "P-384", "P-521", "secp256k1"]
 OKP_SIG = ["Ed25519", "Ed448"]
 OKP_DH = ["X25519", "X448"]
